@@ -372,8 +372,18 @@ class Interp(object):
 
     def call(self, e, env):
         name = unparse(e.func)
-        args = [self.expr(a, env) for a in e.args]
-        kw = dict((k.arg, self.expr(k.value, env)) for k in e.keywords)
+        args = []
+        for a in e.args:
+            if isinstance(a, ast.Starred):
+                args.extend(list(self.expr(a.value, env)))
+            else:
+                args.append(self.expr(a, env))
+        kw = {}
+        for k in e.keywords:
+            if k.arg is None:
+                kw.update(dict(self.expr(k.value, env)))
+            else:
+                kw[k.arg] = self.expr(k.value, env)
         if name in self.intr and callable(self.intr[name]):
             return self.intr[name](*args, **kw)
         if isinstance(e.func, ast.Name) and name in _PURE:
